@@ -38,6 +38,8 @@ def run():
              "kind_free_text": "TLC explores the design model spec/SodImpl.tla exhaustively (design invariants) and emits one test per transition; the harness executes the tests on the real code; TLC validates every recorded trace against spec/SodTrace.tla with the property's invariant"},
             {"name": "tlc-lin", "path": "/verif/spec/SodLin.tla", "serves_properties": [c["property_id"] for c in out_checks if c["engine"] == "tlc-lin"],
              "kind_free_text": "concurrent histories of the real code checked for linearizability by TLC; race detector runs of the same programs"},
+            {"name": "tlc-lock", "path": "/verif/spec/SodLock.tla", "serves_properties": [c["property_id"] for c in out_checks if c["engine"] == "tlc-lock"],
+             "kind_free_text": "lock programs extracted from the source, explored by TLC under Go RWMutex semantics, bound by lock-trace validation"},
         ],
         "checks": out_checks,
         "not_applicable": na,
